@@ -1094,6 +1094,11 @@ class StrategyBase(Node):
 
         The result is a MultiIndex DataFrame.
         """
+        if not self.securities:
+            # nothing was ever held: empty report in the usual format
+            index = pd.MultiIndex.from_arrays([[], []], names=["Date", "Security"])
+            return pd.DataFrame({"price": [], "quantity": []}, index=index)
+
         # get prices for each security in the strategy & create unstacked
         # series
         prc = pd.DataFrame({x.name: x.prices for x in self.securities}).unstack()
@@ -1112,10 +1117,17 @@ class StrategyBase(Node):
         # now convert to unstacked series, dropping nans along the way
         trades = trades[trades != 0].unstack().dropna()
 
-        # Adjust prices for bid/offer paid if needed
+        # Adjust prices for bid/offer paid if needed: per unit of quantity,
+        # summed over all nodes that hold the same security
         if self._bidoffer_set:
-            bidoffer = pd.DataFrame({x.name: x.bidoffers_paid for x in self.securities}).unstack()
-            prc += bidoffer / trades
+            bidoffer = pd.DataFrame()
+            for x in self.securities:
+                paid = x.bidoffers_paid / x.multiplier
+                if x.name in bidoffer.columns:
+                    bidoffer[x.name] += paid
+                else:
+                    bidoffer[x.name] = paid
+            prc += bidoffer.unstack() / trades
 
         res = pd.DataFrame({"price": prc, "quantity": trades}).dropna(subset=["quantity"])
 
